@@ -14,6 +14,10 @@ Small == {[beh |-> "VfProbe", hyp |-> h, k0 |-> k, k1 |-> 0, k2 |-> 0, policy |-
 Wrapped == {[beh |-> b, hyp |-> h, k0 |-> k, k1 |-> k1, k2 |-> k2, policy |-> 0, fail |-> f, rdt10 |-> r, p0 |-> 5] :
             b \in {"VfProbeGL", "VfProbeLog"}, h \in {"Tridimensional", "PlaneStrain"}, k \in {-10, 0, 40, 1040}, k1 \in 0..2, k2 \in 0..3,
             f \in {0, 1, 4, 5, 7}, r \in {5, 10}}
+\* the standard finite strain wrapper (VfProbeFS.mfront, written on F): Cauchy / PK2 / PK1 x the four tangent flavours; no speed of sound
+           \cup {[beh |-> "VfProbeFS", hyp |-> h, k0 |-> k, k1 |-> k1, k2 |-> k2, policy |-> 0, fail |-> f, rdt10 |-> r, p0 |-> 5] :
+            h \in {"Tridimensional", "PlaneStrain"}, k \in {-10, 0, 40}, k1 \in 0..2, k2 \in 0..3,
+            f \in {0, 1, 3, 4, 5, 6, 7, 8}, r \in {5, 10}}
 Number(S) == LET s == SetToSeq(S) IN [i \in 1..Len(s) |-> [id |-> i] @@ s[i]]
 ASSUME \A k \in K0s : Base(k) \in Bases
 ASSUME ndJsonSerialize(IOEnv.OUT, Number(Small \cup Wrapped))
